@@ -18,6 +18,7 @@ package policysync
 // InSync messages are ignored (the statement is silent about them).
 
 import (
+	"bytes"
 	"fmt"
 	"net/netip"
 	"sort"
@@ -82,8 +83,9 @@ var c31SAs = []*proto.ServiceAccountID{
 var c31NSs = []string{"ns1", "ns2", "ns3"}
 
 var (
-	c31PoolOnce sync.Once
-	c31Pool     []string // immutable after construction; canonical IPv4 strings, all distinct
+	c31PoolOnce  sync.Once
+	c31Pool      []string // immutable after construction; canonical IPv4 strings, all distinct
+	c31PoolIndex map[string]int
 )
 
 const c31PoolSize = 200000
@@ -91,11 +93,18 @@ const c31PoolSize = 200000
 func c31GetPool() []string {
 	c31PoolOnce.Do(func() {
 		c31Pool = make([]string, c31PoolSize)
+		c31PoolIndex = make(map[string]int, c31PoolSize)
 		for i := range c31Pool {
 			c31Pool[i] = fmt.Sprintf("10.%d.%d.%d", 100+(i>>16), (i>>8)&255, i&255)
+			c31PoolIndex[c31Pool[i]] = i
 		}
 	})
 	return c31Pool
+}
+
+func c31GetPoolIndex() map[string]int {
+	c31GetPool()
+	return c31PoolIndex
 }
 
 func c31PolKey(id *proto.PolicyID) string {
@@ -152,12 +161,97 @@ func c31Canon(t *rapid.T, typ proto.IPSetUpdate_IPSetType, m string) string {
 	return ""
 }
 
+// c31Members is a set of canonical member strings.  Members that are pool strings (the big
+// set's vocabulary; already canonical) are kept in a byte-per-index table so that 10^5-member
+// sets stay cheap; everything else goes through c31Canon into a plain map.
+type c31Members struct {
+	small map[string]struct{}
+	bits  []byte
+	nbits int
+}
+
+func c31NewMembers() *c31Members { return &c31Members{small: map[string]struct{}{}} }
+
+func (ms *c31Members) add(t *rapid.T, typ proto.IPSetUpdate_IPSetType, m string) {
+	if typ == proto.IPSetUpdate_IP {
+		if i, ok := c31GetPoolIndex()[m]; ok {
+			if ms.bits == nil {
+				ms.bits = make([]byte, c31PoolSize)
+			}
+			if ms.bits[i] == 0 {
+				ms.bits[i] = 1
+				ms.nbits++
+			}
+			return
+		}
+	}
+	ms.small[c31Canon(t, typ, m)] = struct{}{}
+}
+
+func (ms *c31Members) del(t *rapid.T, typ proto.IPSetUpdate_IPSetType, m string) {
+	if typ == proto.IPSetUpdate_IP {
+		if i, ok := c31GetPoolIndex()[m]; ok {
+			if ms.bits != nil && ms.bits[i] == 1 {
+				ms.bits[i] = 0
+				ms.nbits--
+			}
+			return
+		}
+	}
+	delete(ms.small, c31Canon(t, typ, m))
+}
+
+func (ms *c31Members) has(t *rapid.T, typ proto.IPSetUpdate_IPSetType, m string) bool {
+	if typ == proto.IPSetUpdate_IP {
+		if i, ok := c31GetPoolIndex()[m]; ok {
+			return ms.bits != nil && ms.bits[i] == 1
+		}
+	}
+	_, ok := ms.small[c31Canon(t, typ, m)]
+	return ok
+}
+
+func (ms *c31Members) hasPool(i int) bool { return ms.bits != nil && ms.bits[i] == 1 }
+
+func (ms *c31Members) size() int { return len(ms.small) + ms.nbits }
+
+func (ms *c31Members) list() map[string]struct{} {
+	out := make(map[string]struct{}, ms.size())
+	for m := range ms.small {
+		out[m] = struct{}{}
+	}
+	if ms.nbits > 0 {
+		pool := c31GetPool()
+		for i, b := range ms.bits {
+			if b == 1 {
+				out[pool[i]] = struct{}{}
+			}
+		}
+	}
+	return out
+}
+
+func (ms *c31Members) equal(o *c31Members) bool {
+	if len(ms.small) != len(o.small) || ms.nbits != o.nbits {
+		return false
+	}
+	for m := range ms.small {
+		if _, ok := o.small[m]; !ok {
+			return false
+		}
+	}
+	if ms.nbits > 0 && !bytes.Equal(ms.bits, o.bits) {
+		return false
+	}
+	return true
+}
+
 // ---------------------------------------------------------------------------------------
 // model of the announced dataplane state
 
 type c31Set struct {
 	typ     proto.IPSetUpdate_IPSetType
-	members map[string]struct{} // canonical
+	members *c31Members
 	ver     int
 }
 
@@ -228,7 +322,7 @@ func (m *c31Model) profReferenced(name string) bool {
 
 type c31FoldSet struct {
 	typ     proto.IPSetUpdate_IPSetType
-	members map[string]struct{}
+	members *c31Members
 	dirty   bool
 }
 
@@ -333,9 +427,9 @@ func (s *c31Session) apply(t *rapid.T, fail func(string, ...any), msg *proto.ToD
 		return
 	case *proto.ToDataplane_IpsetUpdate:
 		u := pl.IpsetUpdate
-		fs := &c31FoldSet{typ: u.GetType(), members: make(map[string]struct{}, len(u.GetMembers())), dirty: true}
+		fs := &c31FoldSet{typ: u.GetType(), members: c31NewMembers(), dirty: true}
 		for _, m := range u.GetMembers() {
-			fs.members[c31Canon(t, fs.typ, m)] = struct{}{}
+			fs.members.add(t, fs.typ, m)
 		}
 		s.sets[u.GetId()] = fs
 		if len(u.GetMembers()) >= MaxMembersPerMessage {
@@ -355,10 +449,10 @@ func (s *c31Session) apply(t *rapid.T, fail func(string, ...any), msg *proto.ToD
 			s.seen["stream-ipset-delta-at-message-limit"] = true
 		}
 		for _, m := range u.GetAddedMembers() {
-			fs.members[c31Canon(t, fs.typ, m)] = struct{}{}
+			fs.members.add(t, fs.typ, m)
 		}
 		for _, m := range u.GetRemovedMembers() {
-			delete(fs.members, c31Canon(t, fs.typ, m))
+			fs.members.del(t, fs.typ, m)
 		}
 	case *proto.ToDataplane_IpsetRemove:
 		s.note("IPSetRemove(%s)", pl.IpsetRemove.GetId())
@@ -545,13 +639,8 @@ func (c *c31Case) compare(s *c31Session) {
 		if fs.typ != ms.typ {
 			c.fail(s, "IP set %s: stream says type %v, announced type %v", id, fs.typ, ms.typ)
 		}
-		if len(fs.members) != len(ms.members) {
-			c.fail(s, "IP set %s: stream reassembles to %d members, latest has %d%s", id, len(fs.members), len(ms.members), c31SetDiff(fs.members, ms.members))
-		}
-		for m := range ms.members {
-			if _, ok := fs.members[m]; !ok {
-				c.fail(s, "IP set %s: stream reassembles to a different member set%s", id, c31SetDiff(fs.members, ms.members))
-			}
+		if !fs.members.equal(ms.members) {
+			c.fail(s, "IP set %s: stream reassembles to %d members, latest has %d%s", id, fs.members.size(), ms.members.size(), c31SetDiff(fs.members.list(), ms.members.list()))
 		}
 		fs.dirty = false
 		s.cmpVer[id] = ms.ver
@@ -666,13 +755,13 @@ func (c *c31Case) bigMembers() []string {
 }
 
 func (c *c31Case) sendSetUpdate(id string, typ proto.IPSetUpdate_IPSetType, members []string, what string) {
-	ms := &c31Set{typ: typ, members: make(map[string]struct{}, len(members)), ver: c.nextVer()}
+	ms := &c31Set{typ: typ, members: c31NewMembers(), ver: c.nextVer()}
 	for _, m := range members {
-		ms.members[c31Canon(c.t, typ, m)] = struct{}{}
+		ms.members.add(c.t, typ, m)
 	}
 	c.m.sets[id] = ms
 	c.op(what, "IPSetUpdate(%s,%v,%d members %s)", id, typ, len(members), c31Short(members))
-	c.p.handleDataplane(&proto.IPSetUpdate{Id: id, Type: typ, Members: append([]string(nil), members...)})
+	c.p.handleDataplane(&proto.IPSetUpdate{Id: id, Type: typ, Members: members})
 }
 
 func c31Short(m []string) string {
@@ -751,7 +840,7 @@ func (c *c31Case) opSetDelta() bool {
 		nDel := rapid.SampledFrom(c31BigDeltas).Draw(c.t, "bigDel")
 		start := rapid.IntRange(0, 5).Draw(c.t, "bigStart")
 		for i := start; i < len(pool) && (len(add) < nAdd || len(del) < nDel); i++ {
-			if _, in := ms.members[pool[i]]; in {
+			if ms.members.hasPool(i) {
 				if len(del) < nDel {
 					del = append(del, pool[i])
 				}
@@ -762,7 +851,7 @@ func (c *c31Case) opSetDelta() bool {
 	} else {
 		// Like the calc graph: added members are not in the set, removed members are.
 		for _, v := range c31Vocab[ms.typ] {
-			_, in := ms.members[c31Canon(c.t, ms.typ, v)]
+			in := ms.members.has(c.t, ms.typ, v)
 			if rapid.Bool().Draw(c.t, "flip "+v) {
 				if in {
 					del = append(del, v)
@@ -773,10 +862,10 @@ func (c *c31Case) opSetDelta() bool {
 		}
 	}
 	for _, m := range add {
-		ms.members[c31Canon(c.t, ms.typ, m)] = struct{}{}
+		ms.members.add(c.t, ms.typ, m)
 	}
 	for _, m := range del {
-		delete(ms.members, c31Canon(c.t, ms.typ, m))
+		ms.members.del(c.t, ms.typ, m)
 	}
 	ms.ver = c.nextVer()
 	c.op(kind, "IPSetDeltaUpdate(%s,+%d %s,-%d %s)", id, len(add), c31Short(add), len(del), c31Short(del))
@@ -1132,23 +1221,36 @@ var c31OpTable = func() []int {
 	return out
 }()
 
+const c31Assume1 = "service accounts and namespaces are broadcast to every joined workload by design (sendServiceAccounts/sendNamespaces), so for them 'needs' = all current ones"
+const c31Assume2 = "IP set members are compared after address-text canonicalisation (own implementation); within one IPSetDeltaUpdate added members are not in the set and removed members are (as the calc graph emits them)"
+const c31Assume3 = "InSync messages are ignored; after WorkloadEndpointRemove the stream is over (either the removal was delivered or the channel closed)"
+const c31Assume4 = "Leave requests carry the JoinUID of a real earlier join and each join sends at most one Leave (server.go)"
+
 func TestVerifC31PolicySyncStreams(t *testing.T) {
 	ev.Quiet()
 	rec := ev.New("C31", "policysync",
-		"valid dataplane update streams (IP set before referencing policy/profile, policy/profile before referencing endpoint, removals only after dereference; IP set create/replace/delta/remove incl. sets and deltas larger than MaxMembersPerMessage; service accounts, namespaces, InSync) over 3 workloads, 4 policies (same name / different kind+namespace), 3 profiles, 5+1 IP sets, interleaved at message granularity with joins, re-joins replacing an active join, leaves and late (stale) leaves; the real Processor handlers are called synchronously. Non-trivial = some join happened when policies/profiles/IP sets already existed and what that joined workload needs (policy/profile ids or versions, IP set ids) changed later while it was still joined; distinct = distinct input-kind sequence",
-		"service accounts and namespaces are broadcast to every joined workload by design (sendServiceAccounts/sendNamespaces), so for them 'needs' = all current ones",
-		"IP set members are compared after address-text canonicalisation (own implementation); within one IPSetDeltaUpdate added members are not in the set and removed members are (as the calc graph emits them)",
-		"InSync messages are ignored; after WorkloadEndpointRemove the stream is over (either the removal was delivered or the channel closed)",
-		"Leave requests carry the JoinUID of a real earlier join and each join sends at most one Leave (server.go)")
+		"valid dataplane update streams (IP set before referencing policy/profile, policy/profile before referencing endpoint, removals only after dereference; IP set create/replace/delta/remove; service accounts, namespaces, InSync) over 3 workloads, 4 policies (same name / different kind+namespace), 3 profiles, 5+1 IP sets, interleaved at message granularity with joins, re-joins replacing an active join, leaves and late (stale) leaves; ~1.5 % of the cases open with an IP set of 82199..164401 members (around / beyond MaxMembersPerMessage) that a joined workload depends on and then replace / delta it with up to 82250 added and removed members; the real Processor handlers are called synchronously. Non-trivial = some join happened when policies/profiles/IP sets already existed and what that joined workload needs (policy/profile ids or versions, IP set ids) changed later while it was still joined; distinct = distinct input-kind sequence",
+		c31Assume1, c31Assume2, c31Assume3, c31Assume4)
 	defer rec.Write()
 	rapid.Check(t, func(t *rapid.T) {
+		// ~1.5 % of the cases are "big" cases: they open with an IP set at / beyond
+		// MaxMembersPerMessage that a joined workload depends on, followed by few further inputs
+		// biased to replacements and deltas of that set (each costs ~0.1 s in the real code).
+		// (rapid's integers are biased towards small values and the bounds, hence a mid-range window)
+		v := rapid.IntRange(0, 999).Draw(t, "bigCase")
+		c31RunCase(t, rec, v >= 400 && v < 430)
+	})
+}
+
+func c31RunCase(t *rapid.T, rec *ev.Recorder, big bool) {
+	{
 		c := &c31Case{t: t, p: NewProcessor(make(chan any)), classes: map[string]bool{},
 			m: &c31Model{sets: map[string]*c31Set{}, pols: map[string]*c31RuleHolder{}, profs: map[string]*c31RuleHolder{},
 				sas: map[string]*proto.ServiceAccountUpdate{}, nss: map[string]*proto.NamespaceUpdate{}}}
-		c.big = rapid.IntRange(0, 99).Draw(t, "bigCase") < ev.Scale(4, 6)
-		maxOps := 45
+		c.big = big
+		maxOps := 60
 		if c.big {
-			maxOps = 14
+			maxOps = 8
 			// Scripted opening so that a joined workload really depends on the big set; the
 			// join is placed at a drawn position.
 			joinAt := rapid.IntRange(0, 3).Draw(t, "bigJoinAt")
@@ -1182,6 +1284,16 @@ func TestVerifC31PolicySyncStreams(t *testing.T) {
 					c.settle()
 				}
 			}
+		}
+		if !c.big && rapid.Bool().Draw(t, "prelude") {
+			// Optional warm start: the same generators in a fixed kind order, so that joins
+			// meet existing state often.
+			for _, k := range []int{0, 0, 4, 4, 6, 8, 8, 15, 15} {
+				if c31OpDefs[k].run(c) {
+					c.settle()
+				}
+			}
+			c.classes["prelude"] = true
 		}
 		nOps := rapid.IntRange(1, maxOps).Draw(t, "nOps")
 		for i := 0; i < nOps; i++ {
@@ -1218,5 +1330,5 @@ func TestVerifC31PolicySyncStreams(t *testing.T) {
 			c.classes["big-case"] = true
 		}
 		rec.SizedCase(nontrivial, strings.Join(c.kinds, ""), len(c.kinds), func() any { return map[string]any{"inputs": c.ops, "messages": msgs} }, c31Keys(c.classes)...)
-	})
+	}
 }
